@@ -16,6 +16,14 @@ STD_METHODS = [b'GET', b'HEAD', b'POST', b'PUT', b'DELETE', b'CONNECT', b'OPTION
 METHOD_VARIANT = ['Get', 'Head', 'Post', 'Put', 'Delete', 'Connect', 'Options', 'Trace', 'Patch']
 
 
+class _Parked:
+    def __repr__(self):
+        return 'PARKED'
+
+
+PARKED = _Parked()
+
+
 class Conv:
     def __init__(self, S, ctx, data, end='eof', unix=False, short_reads=False, maxlen=None, overrides=None):
         """data: list of byte expressions (concrete layout) or a Buf (symbolic length)"""
@@ -37,23 +45,62 @@ class Conv:
         self.panic = None
         self.ended = False
         self.alive = True
+        self.parked = None
+        self.cos = []
+        ctx.data.setdefault('cleanups', []).append(self.cleanup)
 
-    # ---- connection thread
+    # ---- connection thread (a logical thread: it may park on a hand-over from a handler and be resumed later)
     def next(self):
-        """one ClientConnection::next(); returns the Request value or None; records blocking"""
-        if self.ended or self.blocked:
-            return None
+        """one ClientConnection::next(). Returns the Request value, None (iteration ended) or PARKED: the connection thread
+        waits for a handler (its turn to write an automatic response, or the socket reader of an unread body)."""
+        if self.ended or self.blocked or self.parked is not None:
+            return None if self.parked is None else PARKED
+        from mirsym.sync import Co
+        co = Co(lambda: env.cc_next(self.it, self.cc))
+        self.cos.append(co)
+        return self._drive(co)
+
+    def _drive(self, co):
         try:
-            r = env.cc_next(self.it, self.cc)
+            st = co.resume()
         except Blocked as b:
             self.blocked = b
             return None
+        if st == 'parked':
+            self.parked = co
+            return PARKED
+        self.parked = None
+        r = co.result
         if r.variant == 'None':
             self.ended = True
             return None
         rq = r.fields[0]
         self.delivered.append(rq)
         return rq
+
+    def resume(self):
+        """continue a parked connection thread (after a handler action made progress possible)"""
+        co = self.parked
+        if co is None:
+            return None
+        self.parked = None
+        return self._drive(co)
+
+    def settle(self):
+        """all handler actions are done: a connection thread that is still parked now is blocked forever"""
+        if self.parked is not None:
+            r = self.resume()
+            if r is PARKED:
+                self.blocked = Blocked('connection thread parked forever at %r' % (self.parked.why,), self.parked.why)
+                self.parked.abort()
+                self.parked = None
+                return None
+            return r
+        return None
+
+    def cleanup(self):
+        for co in self.cos:
+            co.abort()
 
     def close(self):
         """the connection task ends: the ClientConnection is dropped"""
@@ -173,3 +220,46 @@ CRLF = K(b'\r\n')
 def slice_eq_exprs(s, exprs):
     """z3: byte slice s equals the list of byte expressions"""
     return z3.And(s.len == len(exprs), *[s.at(i) == e for i, e in enumerate(exprs)])
+
+
+def drive(cv, hold=lambda i, rq: False, on_request=None, max_requests=6, answer=None):
+    """run the connection to its end. hold(i, rq): answer request i only when the connection thread needs it (parked) or at
+    the end. returns the list of delivered request summaries (dicts with 'url' bytes when concrete)."""
+    out = []
+    held = []
+    answer = answer or (lambda rq: cv.respond(rq))
+    i = 0
+    r = cv.next()
+    guard = 0
+    while guard < 4 * max_requests:
+        guard += 1
+        if r is PARKED:
+            if not held:
+                r = cv.settle()
+                if r is None:
+                    break
+                continue
+            for rq in held:
+                answer(rq)
+            held = []
+            r = cv.resume()
+            continue
+        if r is None:
+            break
+        s = cv.summary(r)
+        s['rq'] = r
+        out.append(s)
+        if on_request:
+            on_request(i, r, s)
+        if hold(i, r):
+            held.append(r)
+        else:
+            answer(r)
+        i += 1
+        if i >= max_requests:
+            break
+        r = cv.next()
+    for rq in held:
+        answer(rq)
+    cv.settle()
+    return out
